@@ -13,13 +13,13 @@ SEQ_NOTE = ("Trusted: CPython 3.12, hashlib, the scratch file system (tmpfs /dev
 
 CHECKS = {
     # id: (category, engine, technique, text, design_ref, note)
-    "C01": ("exploration", "seq", "runtime monitor: differential oracle (hashlib / byte equality / stream state) over generated store-retrieve episodes with interleaved histories",
+    "C01": ("exploration", "seq", "runtime monitor: differential oracle (hashlib / byte equality / stream state) over generated store-retrieve episodes with interleaved histories; plus post-condition / invariant monitors wrapped round the public methods while the repository's own test suite runs (another author's inputs)",
             "Post-condition monitor on real store_object / retrieve_object calls across 5 data kinds x offsets x 5 algorithms x 3 shard shapes x buffer-boundary sizes x random histories on other pids; exploration is the honest level for a universal claim over inputs and histories.",
             "4/C01", SEQ_NOTE),
-    "C05": ("exploration", "seq", "runtime monitor: store-directory abstraction compared with a reference model after every call (bounded-exhaustive + random call sequences)",
+    "C05": ("exploration", "seq", "runtime monitor: store-directory abstraction compared with a reference model after every call (bounded-exhaustive + random call sequences); plus post-condition / invariant monitors wrapped round the public methods while the repository's own test suite runs (another author's inputs)",
             "After every call of every sequence (all sequences up to length 3/4 over a 26-op menu, plus long random ones over the whole API) the two reference indexes, the object set and residue are compared with a reference model and a structural invariant.",
             "4/C05", SEQ_NOTE),
-    "C02": ("exploration", "seq", "runtime monitor: post-condition on hex_digests / get_hex_digest against hashlib over long histories on one store instance",
+    "C02": ("exploration", "seq", "runtime monitor: post-condition on hex_digests / get_hex_digest against hashlib over long histories on one store instance; plus post-condition / invariant monitors wrapped round the public methods while the repository's own test suite runs (another author's inputs)",
             "Every store_object / get_hex_digest result of 20-60 call histories on ONE long-lived instance is checked: key set == five defaults + the algorithms named in that call; values == hashlib; all 12 algorithms under every accepted spelling. History dependence is only reachable by running histories, hence exploration.",
             "4/C02", SEQ_NOTE),
     "C03": ("exploration", "seq", "runtime monitor: before/after directory abstraction around every re-bind attempt in bounded-exhaustive and random call sequences; linearizability oracle over scheduler-controlled triples with two binders of one pid",
@@ -31,7 +31,7 @@ CHECKS = {
     "C06": ("exploration", "seq", "runtime monitor: independent verdict oracle (hashlib + len) over the full product of content x algorithm x spelling x checksum case x size x prior state x entry point",
             "The verdict and its consequences (exception class, binding, residue, object presence) are compared with an independent oracle on the full product (thorough) or a stratified sample (quick) of the input space the statement quantifies over.",
             "4/C06", SEQ_NOTE),
-    "C11": ("exploration", "seq", "runtime monitor: metadata tree abstraction compared with a (pid, format)-keyed model after every call",
+    "C11": ("exploration", "seq", "runtime monitor: metadata tree abstraction compared with a (pid, format)-keyed model after every call; plus post-condition / invariant monitors wrapped round the public methods while the repository's own test suite runs (another author's inputs)",
             "All sequences up to length 3 over a 30-44 op metadata menu with colliding pid/format concatenations, plus random length-40 sequences; every retrieve compared byte for byte, every state compared with the model.",
             "4/C11", SEQ_NOTE),
     "C14": ("exploration", "config", "runtime monitor: constructor outcome vs tuple-equality oracle + directory snapshot diff over creation x reopening configurations",
@@ -40,7 +40,7 @@ CHECKS = {
     "C15": ("exploration", "config", "runtime monitor: full directory listing compared with an independent implementation of the README layout over the exhaustive configuration grid",
             "All 120 (depth, width, algorithm) configurations, several random identifier draws each; the complete (path, bytes) set must equal the independently computed one.",
             "4/C15", SEQ_NOTE),
-    "C17": ("exploration", "config", "runtime monitor: byte-for-byte snapshot diff around rejected and read-only calls generated from a grammar of invalid arguments",
+    "C17": ("exploration", "config", "runtime monitor: byte-for-byte snapshot diff around rejected and read-only calls generated from a grammar of invalid arguments; plus post-condition / invariant monitors wrapped round the public methods while the repository's own test suite runs (another author's inputs)",
             "One and two invalid parameters per call for every public method, from empty and populated stores; exception class must be documented and the snapshot (files and directories) identical.",
             "4/C17", SEQ_NOTE),
     "C19": ("exploration", "seq", "runtime monitor: relational check - both storing procedures run on copies of the same store, abstractions and results compared",
